@@ -203,6 +203,13 @@ def install(eng):
             a = ArrV((len(items),), lambda ix: items[ix[0]] if isinstance(ix[0], int) else items[0], "obj")
             a.items = items
             return eng_.alloc(st, a)
+        if isinstance(xd, ListV):
+            # symbolic length: one object entry per element (ragged rows; the equal-length case gives a 2-D object
+            # array whose rows are the same entries - C20's export shape rule is checked at run time)
+            lv = xd
+            return eng_.alloc(st, ArrV((lv.n,), lambda ix, lv=lv: lv.get(ix[0]), "obj"))
+        if isinstance(xd, ArrV) and xd.dtype == "obj":
+            return eng_.alloc(st, ArrV(xd.shape, xd.fn, "obj"))
         raise Unsupported("object array of symbolic length")
 
     eng.object_array_hook = object_array
@@ -665,7 +672,7 @@ BOUNDED = {"C05.reference": bounded_reference, "C07C08.gain_delay_trend": bounde
 _INFO = {
     "bounded": ["C05.reference"],
     "not_decided": ["per-row closed-form link between a row of _lpsd_core and the reference estimator is carried by call-site obligations (kernel arguments + kernel contracts), not by one quantified invariant over all rows"],
-    "trusted": ["SpectrumResult.__init__ normalisation is value preserving"],
+    "trusted": ["SpectrumResult(...) at the end of compute / compute_single_bin is modelled as the object holding the given dict; that __init__ preserves every value is proved under its own unit (analysis.SpectrumResult.__init__)"],
 }
 PROPERTY_INFO = {"C05": dict(_INFO), "C07": {"bounded": ["C07C08.gain_delay_trend"], "not_decided": ["delay clause (phase -2 pi f d/fs, magnitude 1 up to d/L): approximate edge-effect statement, bounded run-time check only"]}, "C08": {"bounded": ["C07C08.gain_delay_trend", "C05.reference"], "not_decided": ["span(Q) = polynomials of degree <= p rests on the assumed QR contract (range(Q) = range(V)); 'degree p+1 does change it' is existential: run-time witness"]}, "C14": {"bounded": ["C05.reference"]}, "C12": {"bounded": [], "not_decided": ["side-lobe level of np.kaiser itself (Bessel window, continuum of offsets): bounded grid only"]}}
 
